@@ -275,4 +275,88 @@ theorem load_ok (hlibs : ∀ l ∈ libs, l ∈ univ) (hclosed : ∀ q ∈ univ, 
 
 end Load
 
+/-! ### normalising sites -/
+
+theorem Atom.mem_all (a : Atom) : a ∈ Atom.all := by
+  cases a with
+  | err n => cases n <;> decide
+  | bi b => cases b <;> decide
+
+/-- transitivity towards the root of the hierarchy, by exhausting the generated tables -/
+theorem atom_isA_trans_Error (c a : Atom) (hc : c.isA (.err .Error) = true) (ha : a.isA c = true) : a.isA (.err .Error) = true := by
+  have key : Atom.all.all (fun c => !c.isA (.err .Error) || Atom.all.all (fun a => !a.isA c || a.isA (.err .Error))) = true := by
+    decide +kernel
+  have h1 := (List.all_eq_true.mp key) c (Atom.mem_all c)
+  simp only [hc, Bool.not_true, Bool.false_or] at h1
+  have h2 := (List.all_eq_true.mp h1) a (Atom.mem_all a)
+  simpa [ha] using h2
+
+/-- A try statement whose clauses pass `coversException` turns every `Exception` into a member of the Errors.Error hierarchy
+    (for `renode`: given the one-argument constructor, `CtorOk`). -/
+theorem coversException_sound (hs : List Handler) (hcov : coversException hs = true) (x : Exc) (hx : x.isException = true)
+    (hctor : x.inHierarchy = true → x.arg0 = .other → x.cls.ctor1 = true) : (propagate hs x).inHierarchy = true := by
+  induction hs with
+  | nil => simp [coversException] at hcov
+  | cons h hs ih =>
+    simp only [coversException, Bool.and_eq_true, Bool.or_eq_true] at hcov
+    obtain ⟨hsafe, hrest⟩ := hcov
+    unfold propagate
+    by_cases hm : x.cls.isA h.catches = true
+    · simp only [hm, if_true]
+      unfold handlerSafe at hsafe
+      cases hact : h.action with
+      | wrap n a =>
+        simp only [runAction]
+        exact err_isA_Error n
+      | renode =>
+        rw [hact] at hsafe
+        have hin : x.cls.isA (.err .Error) = true := Cls.isA_lift h.catches (.err .Error) (fun a ha => atom_isA_trans_Error h.catches a hsafe ha) x.cls hm
+        simp only [runAction]
+        by_cases h3 : x.arg0 = .other
+        · simp only [h3, if_true, hctor hin h3]; exact hin
+        · simp only [h3, if_false]; exact hin
+      | reraise =>
+        rw [hact] at hsafe
+        simp only [runAction]
+        exact Cls.isA_lift h.catches (.err .Error) (fun a ha => atom_isA_trans_Error h.catches a hsafe ha) x.cls hm
+    · simp only [hm]
+      cases hrest with
+      | inl heq =>
+        have : h.catches = .bi .Exception := by simpa using heq
+        rw [this] at hm
+        exact absurd hx hm
+      | inr hc => exact ih hc
+
+theorem err_isA_self (n : ErrName) : (Atom.err n).isA (.err n) = true := by cases n <;> rfl
+
+/-- … and when every clause wraps into `Errors.<n>` the result is an `Errors.<n>` -/
+theorem coversWraps_sound (n : ErrName) (hs : List Handler) (hcov : coversException hs = true) (hw : wrapsAllInto n hs = true)
+    (x : Exc) (hx : x.isException = true) : (propagate hs x).cls.isA (.err n) = true := by
+  induction hs with
+  | nil => simp [coversException] at hcov
+  | cons h hs ih =>
+    simp only [coversException, Bool.and_eq_true, Bool.or_eq_true] at hcov
+    simp only [wrapsAllInto, List.all_cons, Bool.and_eq_true] at hw
+    obtain ⟨_, hrest⟩ := hcov
+    obtain ⟨hwh, hwt⟩ := hw
+    unfold propagate
+    by_cases hm : x.cls.isA h.catches = true
+    · simp only [hm, if_true]
+      cases hact : h.action with
+      | wrap m a =>
+        rw [hact] at hwh
+        have : m = n := by simpa using hwh
+        subst this
+        simp only [runAction, Exc.ofErr, Cls.isA]
+        exact err_isA_self m
+      | renode => rw [hact] at hwh; simp at hwh
+      | reraise => rw [hact] at hwh; simp at hwh
+    · simp only [hm]
+      cases hrest with
+      | inl heq =>
+        have : h.catches = .bi .Exception := by simpa using heq
+        rw [this] at hm
+        exact absurd hx hm
+      | inr hc => exact ih hc (by simpa [wrapsAllInto] using hwt)
+
 end Tranp.Errors
